@@ -260,10 +260,16 @@ def cases(tier, seed):
     out = []
     max_order = 2 if tier == "quick" else 3
     for n in range(max_order + 1):
-        pool = fmt_pool(n, rng, 4 if tier == "quick" else (8 if n < 3 else 10))
+        pool = fmt_pool(n, rng, 6 if tier == "quick" else (8 if n < 3 else 10))
         pairs = list(itertools.product(pool, pool))
         if tier == "quick" and len(pairs) > 10:
-            pairs = rng.sample(pairs, 10)
+            # operands stored in different orderings must be among the pairs
+            nat = [f for f in pool if not any(ch.isdigit() for ch in f)]
+            perm = [f for f in pool if any(ch.isdigit() for ch in f)]
+            forced = [(a, b) for a in perm for b in nat[:2]] + [(a, b) for a in nat[:2] for b in perm] + \
+                     [(a, b) for a in perm for b in perm]
+            rest = [p for p in pairs if p not in forced]
+            pairs = forced + rng.sample(rest, max(0, 10 - len(forced)) + 4)
         for lf, rf in pairs:
             for op in "+-*":
                 out.append((op, lf, rf, False, False))
